@@ -1951,6 +1951,25 @@ def install_frag_findings():
     vf.load_known = load
 
 
+def run_harness(binary, text, budget, timeout=3000):
+    """Feed the cases to the harness.  The harness leaves (exit 42) after a call it had to abandon (HANG / CRASH: jumping out of a signal
+    handler may leave malloc's lock and library state behind); it is restarted on the remaining lines.  After 15 abandoned calls the tree
+    is obviously broken and the remaining calls get 1 s of CPU each, so that the run stays short."""
+    import time as _t
+    lines = text.splitlines(True)
+    out, pos, bad, t0, err = [], 0, 0, _t.time(), ""
+    while pos < len(lines):
+        b = budget if bad < 15 else "1"
+        rc, o, err = vf.run_lines(binary, "".join(lines[pos:]), timeout=max(60, timeout - int(_t.time() - t0)), args=[b])
+        out += o
+        pos += len(o)
+        if rc == 42 and o:
+            bad += 1
+            continue
+        return rc, out, err
+    return 0, out, err
+
+
 def run_parallel(binary, lines, nproc, timeout=1500):
     """run the (stateless, line-by-line) model driver on round-robin chunks of the input in nproc processes"""
     from concurrent.futures import ThreadPoolExecutor
@@ -2066,7 +2085,7 @@ def main(tier, replay=None):
             cs = fi["case"]
             cases.append({"v": cs["variant"], "args": [int(x) for x in cs["args"]], "kind": "replay", "fac": None, "klass": fi.get("klass", "")})
         impl_in = "".join("%s %s\n" % (c["v"], " ".join(str(x) for x in c["args"])) for c in cases)
-        rc, iout, ierr = vf.run_lines(himpl, impl_in, timeout=600, args=["10"])
+        rc, iout, ierr = run_harness(himpl, impl_in, "10", timeout=600)
         for c, o in zip(cases, iout):
             print("replay %s %s -> %s" % (c["v"], c["args"], o[:200]))
         return 0
@@ -2075,7 +2094,7 @@ def main(tier, replay=None):
     cases = gen_cases(rng, tier, chk, K)
     lap("generate")
     impl_in = "".join("%s%s %s\n" % ("@%s " % c["way"] if c.get("way") else "", c["v"], " ".join(str(x) for x in c["args"])) for c in cases)
-    rc, iout, ierr = vf.run_lines(himpl, impl_in, timeout=3000, args=["5" if tier == "quick" else "60"])
+    rc, iout, ierr = run_harness(himpl, impl_in, "5" if tier == "quick" else "60")
     if rc == 124 and "[timeout]" in ierr:
         inconclusive.append("the implementation harness did not finish %d cases within 50 minutes (machine load): no verdict from this run" % len(cases))
         chk.cov["inconclusive"], chk.cov["floor_missed"] = True, ["oracle_comparisons", "correspondence_comparisons", "scripted_walk_comparisons"]
@@ -2090,7 +2109,7 @@ def main(tier, replay=None):
     if hung:
         big = "25" if tier == "quick" else "300"
         redo = "".join("%s%s %s\n" % ("@%s " % cases[i]["way"] if cases[i].get("way") else "", cases[i]["v"], " ".join(str(x) for x in cases[i]["args"])) for i in hung[:6])
-        rc2, o2, e2 = vf.run_lines(himpl, redo.replace(".ip ", ".ipx ") if False else redo, timeout=3000, args=[big])
+        rc2, o2, e2 = run_harness(himpl, redo, big)
         back = 0
         if rc2 == 0 and len(o2) == len(hung[:6]):
             for i, o in zip(hung[:6], o2):
